@@ -324,4 +324,12 @@ theorem unnormalizeDistribution_wf [Inhabited S] (mu sd : List (List (Option S))
   exact step_inv sc isZero (.transform T) hwf hT happ
 end normalisers
 
+/-- interpolation of every kind (`quadratic`, `cubic`, or whatever the code substitutes for short tracks — the interpolant is a parameter that returns rows as wide as its
+    samples) maps a well-formed pose with at least two frames to a well-formed pose -/
+theorem interpolate_any_kind_wf {S : Type} [Inhabited S] (sc : Scalar S) {isZero : S → Bool} (kind : List S → List (List S) → S → List S) (hk : KeepsWidth kind)
+    {F P D : Nat} {p : PPose S} (hinv : PInv isZero F P D p) (hF : 2 ≤ F) (hP : 0 < P) (hN : 0 < totalPts p.comps) (newFps : S) (newFrames : Nat) :
+    ∃ r, interpolateBodyWith sc isZero kind newFps newFrames p.body = some r ∧ WF isZero ⟨p.comps, r⟩ := by
+  obtain ⟨r, hr, hinv', _⟩ := interpolateWith_inv sc kind hk hinv.body hF hP hN newFps newFrames
+  exact ⟨r, hr, newFrames, P, D, hinv.formats, hinv'⟩
+
 end PoseVerif.Props.C12
